@@ -92,6 +92,7 @@ type Job struct {
 	Out      string   `json:"out"`
 	KeepPlan bool     `json:"keep_plan,omitempty"`
 	GenOnly  bool     `json:"gen_only,omitempty"`
+	PerRun   int      `json:"-"` // watchdog override for this job (0: the tier's)
 }
 
 type Finding struct {
@@ -228,6 +229,18 @@ func prepare(race bool) *build {
 func (b *build) cleanup() { os.RemoveAll(b.dir) }
 
 var perRunSec = 20
+
+// watchdogFor: a hang is only a hang if the run, re-run with few others, outlives five watchdog periods (at least 40 s).
+func watchdogFor(class string, perRun int) int {
+	if class == "hang" {
+		if perRun*5 < 40 {
+			return 40
+		}
+		return perRun * 5
+	}
+	return perRun
+}
+var confirmSem = make(chan struct{}, 4) // at most four confirmations at a time
 var jobSeq int
 var jobMu sync.Mutex
 
@@ -255,7 +268,11 @@ func (b *build) runJob(job *Job, timeout time.Duration) *jobResult {
 	defer os.Remove(jp)
 	defer os.Remove(job.Out)
 	cmd := exec.Command(b.worker, "-test.run", "^TestWorker$", "-test.timeout", "0")
-	cmd.Env = append(os.Environ(), "VERIF_JOB="+jp, "VERIF_PERRUN="+strconv.Itoa(perRunSec), "GORACE=halt_on_error=0 history_size=2", "GOMAXPROCS="+gomaxprocs())
+	pr := perRunSec
+	if job.PerRun > 0 {
+		pr = job.PerRun
+	}
+	cmd.Env = append(os.Environ(), "VERIF_JOB="+jp, "VERIF_PERRUN="+strconv.Itoa(pr), "GORACE=halt_on_error=0 history_size=2", "GOMAXPROCS="+gomaxprocs())
 	var stderr bytes.Buffer
 	cmd.Stderr = &stderr
 	cmd.Stdout = &stderr
@@ -502,7 +519,7 @@ func (b *build) runPlans(plans []*Plan, trace bool, perRun int) []*Outcome {
 		go func(i int) {
 			defer wg.Done()
 			defer func() { <-sem }()
-			job := &Job{Prop: plans[i].Prop, Plans: []*Plan{plans[i]}, Trace: trace, KeepPlan: true}
+			job := &Job{Prop: plans[i].Prop, Plans: []*Plan{plans[i]}, Trace: trace, KeepPlan: true, PerRun: perRun}
 			r := b.runJob(job, time.Duration(perRun+10)*time.Second)
 			for _, o := range r.outs {
 				if o.Seed == plans[i].Seed {
@@ -795,8 +812,13 @@ func cmdRun(args []string) int {
 					if r.hung {
 						cls = "hang"
 					}
-					one := &Job{Prop: prop, Tier: *tier, SeedFrom: r.lastRun, SeedTo: r.lastRun + 1, Avoid: av}
-					r2 := b.runJob(one, time.Duration(t.PerRun+10)*time.Second)
+					// a hang must be a run that does not end, not a slow run on a busy machine: the confirmation
+					// gets five times the watchdog (at least 40 s) and runs while at most three other confirmations do
+					long := watchdogFor("hang", t.PerRun)
+					one := &Job{Prop: prop, Tier: *tier, SeedFrom: r.lastRun, SeedTo: r.lastRun + 1, Avoid: av, PerRun: long}
+					confirmSem <- struct{}{}
+					r2 := b.runJob(one, time.Duration(long+30)*time.Second)
+					<-confirmSem
 					mu.Lock()
 					if r2.hung || r2.crashed {
 						sig := hangSig(r2.stderr)
@@ -809,15 +831,19 @@ func cmdRun(args []string) int {
 						outs = append(outs, r2.outs...)
 						tooling = append(tooling, fmt.Sprintf("seed %d: worker %s in a batch but not alone", r.lastRun, cls))
 					}
+					stop := deaths >= 4
 					mu.Unlock()
 					from = r.lastRun + 1
+					if stop {
+						break // enough confirmed hangs/crashes: the verdict stands, do not burn the budget on more
+					}
 				}
 			}
 		}()
 	}
 	for _, c := range chunks {
 		mu.Lock()
-		tooMany := deaths > 12
+		tooMany := deaths >= 4
 		mu.Unlock()
 		if time.Now().After(deadline) || tooMany {
 			skipped++
@@ -909,10 +935,10 @@ func cmdRun(args []string) int {
 				if *tier == "thorough" {
 					mb = 240 * time.Second
 				}
-				min, rp.MinTried = b.minimise(plan, sig, mb, t.PerRun)
+				min, rp.MinTried = b.minimise(plan, sig, mb, watchdogFor(fv.v.Class, t.PerRun))
 			}
 			rp.MinOps = len(min.Ops)
-			fin := b.runPlans([]*Plan{min}, true, t.PerRun)[0]
+			fin := b.runPlans([]*Plan{min}, true, watchdogFor(fv.v.Class, t.PerRun))[0]
 			if hasSig(fin, sig) {
 				rp.Plan = min
 				rp.Hash = fin.Hash
@@ -1138,7 +1164,7 @@ func cmdReplay(args []string) int {
 	}
 	b := prepare(rp.Race)
 	defer b.cleanup()
-	o := b.runPlans([]*Plan{rp.Plan}, true, 60)[0]
+	o := b.runPlans([]*Plan{rp.Plan}, true, watchdogFor(rp.Violation.Class, 60))[0]
 	if hasSig(o, rp.Violation.Sig) {
 		same := "same"
 		if o.Hash != rp.Hash {
